@@ -4,6 +4,10 @@ import json, os
 HERE = os.path.dirname(os.path.abspath(__file__))
 TECH = "bounded symbolic execution of rustc MIR of /repo (mirsym, own MIR->SMT engine) decided by z3; cvc5 + z3-4.8.12 re-decide every VC in the thorough tier; counterexamples replayed natively before reporting"
 CHECKS = {
+ 'C19': dict(
+   text="Symbolic execution from MIR of amqp_url::decode, populate_host_and_port and open with the Url behind its accessors as a record of symbolic components (scheme, host?, port?, username, password?, path segments, query pairs): the resulting options must equal the component-wise reading (localhost / 5672 / 5671 defaults, guest rules, EXTERNAL overriding credentials, vhost rule, each numeric parameter, last value wins), the first offending component must yield its specific error, and the secure-only entry point must answer InsecureUrl for amqp without any connection attempt.",
+   note="Url::parse (string to components) is the url crate's and trusted; percent decoding and integer parsing are uninterpreted functions of the component text; up to 2 path segments and 2 (thorough 3) query pairs. Decode counterexamples are replayed natively on a concrete URL built from the model.",
+   ref="DESIGN.md §4 C19"),
  'C02': dict(
    text="Bounded symbolic execution of the real publish path (Channel::basic_publish, ChannelHandle::send_content, IoLoopHandle send_content_header/body, OutputBuffer push + serialize, from MIR) with a body of symbolic 64-bit length, symbolic payload limit (frame_max-8 >= 4088 or unlimited), symbolic flags/strings: the messages handed to the I/O thread must be exactly Basic.Publish(ticket 0, exchange, routing key, mandatory, immediate as given), one header (class 60, body_size = len, the given properties) and body frames contiguous from offset 0, full except the last, never empty, never above the limit, summing to len, each alone in its message and on that channel; a second publish appends its own group after the first.",
    note="Chunk loop unrolled k times (len <= k x limit; exact multiples inside); byte encodings are amq-protocol's (frames are tracked as identities with payload ranges); counterexamples replayed natively by observation equality on a real Channel.",
